@@ -50,6 +50,8 @@ def make_scheme(view, r, max_n=22):
     names = [view.names[g] for g in idx]
     inset = set(names)
     hl, links, used = [], [], set()
+    # the dataset's own days-per-year: the shipped value, or a Julian / calendar year (both precisions get the same)
+    year = r.choice([Fraction(int(dd.sympy_year_conv.p), int(dd.sympy_year_conv.q)), Fraction(36525, 100), Fraction(365), Fraction(366)])
     for g in idx:
         prog = [str(p) for p in dd.progeny[g]]
         modes = [str(m) for m in dd.modes[g]]
@@ -60,7 +62,6 @@ def make_scheme(view, r, max_n=22):
         while True:
             unit = r.choice(["μs", "ms", "s", "s", "m", "h", "d", "d", "y", "y", "ky", "My"])
             value = float(f"{10.0 ** r.uniform(-1, 3):.4g}")
-            year = Fraction(int(dd.sympy_year_conv.p), int(dd.sympy_year_conv.q))
             sec = dec(value) * (UNIT_SECONDS[unit] if unit in UNIT_SECONDS else 86400 * year * YEAR_UNITS[unit])
             if sec not in used:
                 used.add(sec)
@@ -80,7 +81,7 @@ def make_scheme(view, r, max_n=22):
         links.append([(p, f, m) for p, f, m in zip(prog, fr, modes) if p in inset or p == "SF"])
     masses = [float(dd.scipy_data.atomic_masses[g]) for g in idx]
     return {"names": names, "hl": hl, "links": links, "masses": masses, "source_idx": idx,
-            "year": Fraction(int(dd.sympy_year_conv.p), int(dd.sympy_year_conv.q)), "year_float": float(dd.float_year_conv)}
+            "year": year, "year_float": float(year)}
 
 
 def rates_of(sch):
@@ -177,14 +178,14 @@ def write_files(sch, C, Ci, rate, path):
                 pickle.dump(o, f)
 
 
-def build(rd, view, r, tag):
+def build(rd, view, r, tag, sch=None, name=None):
     """returns (loaded DecayData, scheme, directory) — the caller removes the directory"""
-    sch = make_scheme(view, r)
+    sch = sch or make_scheme(view, r)
     C, Ci, rate = exact_matrices(sch)
     path = str(WORK / "synth" / tag)
     shutil.rmtree(path, ignore_errors=True)
     write_files(sch, C, Ci, rate, path)
-    ds = rd.decaydata.load_dataset(f"verif_synth_{tag}", dir_path=path, load_sympy=True)
+    ds = rd.decaydata.load_dataset(name or f"verif_synth_{tag}", dir_path=path, load_sympy=True)
     return ds, sch, path
 
 
@@ -323,6 +324,12 @@ def decay_block(rep, ctx, stream, kinds=("decay",), ndatasets=None, per=6, hp=Fa
                                   {"call": "synthetic-wf", "names": sch["names"], "verdict": verdict}, True)
                     continue
             view = DatasetView(ds)
+            if float(ds.float_year_conv) != sch["year_float"] or Fraction(int(ds.sympy_year_conv.p), int(ds.sympy_year_conv.q)) != sch["year"]:
+                bad += 1
+                rep.violation("failing-input", f"{desc0}: the dataset was written with {float(sch['year'])} days per year, the loaded "
+                              f"object reports float {float(ds.float_year_conv)!r} / exact {ds.sympy_year_conv}",
+                              {"call": "synthetic-year", "names": sch["names"]}, True)
+                continue
             C, Ci, rate = exact_matrices(sch)
             K = condition_bounds(C, Ci)
             # the forward-error bound the theorem Generic.forward_error gives for THIS dataset: the driver finds the smallest
@@ -347,8 +354,8 @@ def decay_block(rep, ctx, stream, kinds=("decay",), ndatasets=None, per=6, hp=Fa
                     tsec = float(r.choice([1e-3, 0.1, 1.0, 3.0, 30.0, 200.0]) / view.rate[g])
                 else:
                     tsec = 10.0 ** r.uniform(-6, 12)
-                tu = r.choice(["s", "s", "ms", "h", "d", "y", "μs"])
-                per_u = float(view.unit_s[tu])
+                tu = r.choice(["s", "ms", "h", "d", "y", "y", "ky", "yr", "μs"])
+                per_u = float(86400 * sch["year"] * {"y": 1, "yr": 1, "ky": 1000}[tu]) if tu in ("y", "yr", "ky") else float(view.unit_s[tu])
                 t = tsec / per_u
                 for kind in kinds:
                     cases.append((kind, contents, t, tu))
@@ -360,14 +367,15 @@ def decay_block(rep, ctx, stream, kinds=("decay",), ndatasets=None, per=6, hp=Fa
                     inv = Cc(dict(contents), "num", True, ds)
                     if hp:
                         n0 = {view.index[nm]: Fraction(int(v.p), int(v.q)) for nm, v in inv.contents.items()}
-                        tsx = rd.converters.UnitConverterSympy.time_unit_conv(sympy.nsimplify(t), tu, "s", ds.sympy_year_conv)
+                        tsx = rd.converters.UnitConverterSympy.time_unit_conv(sympy.nsimplify(t), tu, "s",
+                                                                              sympy.Rational(sch["year"].numerator, sch["year"].denominator))
                         if not tsx.is_Rational:
                             rep.inconclusive += 1
                             continue
                         ts = Fraction(int(tsx.p), int(tsx.q))
                     else:
                         n0 = {view.index[nm]: F(v) for nm, v in inv.contents.items()}
-                        ts = F(rd.converters.UnitConverterFloat.time_unit_conv(t, tu, "s", ds.float_year_conv))
+                        ts = F(rd.converters.UnitConverterFloat.time_unit_conv(t, tu, "s", sch["year_float"]))
                     res = inv.decay(t, tu).numbers() if kind == "decay" else inv.cumulative_decays(t, tu)
                     reals.append((kind, desc, n0, res))
                     ocs[kind].append((n0, ts))
